@@ -555,6 +555,9 @@ def replay(path):
         print(json.dumps(r, indent=1)[:4000])
         return 1
     case = r['replay']['case']
+    if r['replay'].get('section') == 'end-to-end':
+        from .. import pipeline as _PL
+        return _PL.replay_e2e(case, 'C13', path)
     from pykdebugparser.kevent import from_kd_buf
     codes = {int(k): v for k, v in case['codes'].items()}
     print('thread map:', case['tmap'])
